@@ -414,6 +414,16 @@ class Builder:
                         return r["name"]
         return None
 
+    def first_of_list(self, gd):
+        """is the guard `let Some(..) = X.split_first()` / `.first()` / `.split_last()` / `.last()` (X not an iterator)"""
+        ge = gd.get("e")
+        if not (isinstance(ge, dict) and ge.get("k") == "let"):
+            return False
+        pt = ge.get("pat") or {}
+        iv = H.peel_ref(ge.get("init")) if isinstance(ge.get("init"), dict) else None
+        return (pt.get("path") or {}).get("def") == "core::option::Option::Some" and isinstance(iv, dict) and iv.get("k") == "mcall" and \
+            iv["name"] in ("split_first", "first", "split_last", "last") and not iv["args"]
+
     def loop_over(self, y):
         if y[0] not in ("loop", "star", "star1") or len(y) < 3 or not isinstance(y[2], dict):
             return None
@@ -596,6 +606,8 @@ class Builder:
                     continue
                 if nxk is not None and nxk in self.iter_state and gd.get("taken") is not None and gd["taken"] != (self.iter_state[nxk] == "rest"):
                     continue
+                if gd.get("taken") is False and self.first_of_list(gd):
+                    continue        # `if let Some((first, rest)) = xs.split_first()`: clause lists are taken as non-empty
                 pt_, sc_ = gd.get("pat"), scrut
                 ge = gd.get("e")
                 if not isinstance(pt_, dict) and isinstance(ge, dict) and ge.get("k") == "let" and gd.get("taken") is True:
@@ -770,7 +782,7 @@ class Builder:
             self.tokens(toks, s, e, {"fn": fname, "lit": S[1]})
         elif k == "hole":
             what = ((S[2] or {}).get("what") or "")
-            if what.startswith("local ") and what[6:] in self.bind:
+            if what.startswith("local ") and what[6:] in self.bind and not self.bind[what[6:]].startswith("#"):
                 self.tokens(lex(self.bind[what[6:]]), s, e, {"fn": fname, "lit": self.bind[what[6:]], "sp": S[3]})
                 return
             if what.startswith("local ") and S[1] == "STR":
